@@ -63,6 +63,7 @@ class Num:
         return None
 
     def run_fn(self, f):
+        self.cur_fn = f
         ev = sym.Evaluator(self.facts)
         ctx = sym.Ctx(ev, f)
         v, t = ev.ev(f['thir'], ctx)
@@ -111,11 +112,44 @@ class Num:
                 return size_of(v[4][0]) if v[4] else None
             if nm == 'max_encoded_len' and v[5] == 'MaxEncodedLen':
                 return self.mel_of_type(v[4][0])
-            if nm in ('saturating_add', 'saturating_mul', 'max', 'min'):
+            if nm in ('saturating_add', 'saturating_mul', 'max', 'min') and len(v[3]) == 2:
                 a, b = self.num(v[3][0]), self.num(v[3][1])
                 if a is None or b is None:
                     return None
                 return {'saturating_add': a + b, 'saturating_mul': a * b, 'max': max(a, b), 'min': min(a, b)}[nm]
+            if nm in ('fold', 'sum', 'max', 'min') and v[3] and len(v[3]) in (1, 3):
+                # a reduction over an array literal of lengths: `[a, b].iter().sum()`, `.fold(0, |acc, x| acc + x)`
+                src = strip(v[3][0])
+                for _ in range(6):
+                    if isinstance(src, tuple) and src and src[0] == 'call' and src[1] in ('iter', 'into_iter', 'copied', 'cloned') and src[3]:
+                        src = strip(src[3][0])
+                    elif isinstance(src, tuple) and src and src[0] in ('ref', 'deref', 'coerce'):
+                        src = strip(src[1])
+                    else:
+                        break
+                if isinstance(src, tuple) and src and src[0] == 'array':
+                    xs = [self.num(x) for x in src[1]]
+                    if any(x is None for x in xs):
+                        return None
+                    if nm == 'sum':
+                        return sum(xs)
+                    if nm in ('max', 'min') and len(v[3]) == 1:
+                        return None     # Option-valued
+                    acc = self.num(v[3][1])
+                    clo = strip(v[3][2])
+                    if acc is None or not (isinstance(clo, tuple) and clo and clo[0] == 'closure') or getattr(self, 'cur_fn', None) is None:
+                        return None
+                    ev = sym.Evaluator(self.facts)
+                    for x in xs:
+                        r = ev.apply_closure(clo, [('lit', acc, 'usize', ()), ('lit', x, 'usize', ())], sym.Ctx(ev, self.cur_fn))
+                        if not r or r[1] != ['eps']:
+                            return None
+                        acc = self.num(r[0])
+                        if acc is None:
+                            return None
+                    return acc
+        if k in ('ref', 'deref', 'coerce') and len(v) > 1:
+            return self.num(v[1])
         return None
 
 
@@ -295,17 +329,64 @@ def check_fixed_size(out, facts, S):
         st = T.from_json(f['self_ty'])
         w = S.wire_type(st)
         if st[0] == 'array':
-            # Some(T::encoded_fixed_size()? * N): None propagates, product with the element count
-            ok = isinstance(v, tuple) and v[0] == 'opt'
-            inner = strip(v[1]) if ok else None
-            ok = ok and isinstance(inner, tuple) and inner[0] == 'bin' and inner[1] == 'Mul'
-            if ok:
-                a, b = strip(inner[2]), strip(inner[3])
-                if a[0] == 'cparam':
-                    a, b = b, a
-                ok = b == ('cparam', 'N', 'usize') or (b[0] == 'cparam' and b[1] == st[2])
-                ok = ok and a[0] == 'tried' and strip(a[1])[0] == 'call' and strip(a[1])[1] == 'encoded_fixed_size' and strip(a[1])[4][0] == 'T'
-            out.ob('R13.4', key, bool(ok), 'array fixed size is not Some(T::encoded_fixed_size()? * N): ' + sym.vstr(v), f['loc'])
+            # None when the element has no fixed size, else Some(element size * N) — decided by evaluating the returned
+            # value under both answers of `T::encoded_fixed_size()`, however the Option is taken apart (`?`, match, if let)
+            def is_item_call(x):
+                x = strip(x)
+                return isinstance(x, tuple) and len(x) > 4 and x[0] == 'call' and x[1] == 'encoded_fixed_size' and x[4] and x[4][0] == 'T'
+
+            def opt_eval(x, item, n):
+                """'none' / ('some', k) / None (unknown) for the value x when T::encoded_fixed_size() == item and N == n"""
+                x = strip(x)
+                if not isinstance(x, tuple) or not x:
+                    return None
+
+                def leaf(y):
+                    y = strip(y)
+                    if isinstance(y, tuple) and y and y[0] in ('tried', 'unwrapped') and is_item_call(y[1]):
+                        return item
+                    if isinstance(y, tuple) and len(y) > 3 and y[0] == 'field' and is_item_call(y[1]) and y[3] == 'Some':
+                        return item
+                    if isinstance(y, tuple) and y and y[0] == 'cparam':
+                        return n
+                    return None
+                if is_item_call(x):
+                    return 'none' if item is None else ('some', item)
+                if x[0] == 'adt' and x[1].endswith('Option') and x[2] == 'None':
+                    return 'none'
+                if x[0] == 'opt':
+                    if item is None and contains(x[1], lambda y: isinstance(y, tuple) and y and y[0] == 'tried' and is_item_call(y[1])):
+                        return 'none'       # `?` on None leaves the function with None
+                    try:
+                        k_ = eval_expr(x[1], leaf)
+                    except ArithPanic:
+                        return None
+                    return ('some', k_) if isinstance(k_, int) else None
+                if x[0] == 'matchval' and is_item_call(x[1]):
+                    for d_, arm in x[2]:
+                        nm = d_[1] if isinstance(d_, tuple) and len(d_) > 1 else str(d_)
+                        if (item is None and str(nm).startswith('None')) or (item is not None and str(nm).startswith('Some')) or str(nm) == '_':
+                            return opt_eval(arm, item, n)
+                    return None
+                if x[0] == 'ifval':
+                    c = strip(x[1])
+                    some = None
+                    if isinstance(c, tuple) and c and c[0] == 'call' and c[1] in ('is_some', 'is_none') and is_item_call(c[3][0]):
+                        some = (item is not None) == (c[1] == 'is_some')
+                    elif isinstance(c, tuple) and c and c[0] == 'letcond' and is_item_call(c[2]):
+                        some = (item is not None) == (c[1] == 'Some')
+                    if some is None:
+                        return None
+                    return opt_eval(x[2] if some else x[3], item, n)
+                return None
+            ok = True
+            for item in (None, 0, 1, 4, 16):
+                for n_ in (0, 1, 3, 7):
+                    got = opt_eval(v, item, n_)
+                    wantv = 'none' if item is None else ('some', item * n_)
+                    if got != wantv:
+                        ok = False
+            out.ob('R13.4', key, bool(ok), 'array fixed size is not None / Some(element size * N) according to T::encoded_fixed_size(): ' + sym.vstr(v)[:200], f['loc'])
             continue
         num = Num(facts, S, {}, {})
         declared = num.num(v[1]) if isinstance(v, tuple) and v[0] == 'opt' else None
